@@ -21,8 +21,11 @@ func vhConvergeStep() {
 	n := vParam("N", 2)
 	d := &vDB{}
 	arts, hashes := vAllArts, vAllHashes
-	if vParam("RICH", 1) == 0 {
+	switch vParam("RICH", 1) {
+	case 0:
 		arts, hashes = []int{1, 0, 3, 2}, vAllHashes
+	case 2:
+		arts, hashes = []int{1, 0}, []int{1, 2}
 	}
 	fs := vForest(d, n, arts, hashes)
 	fresh := make([]bool, n)
